@@ -86,11 +86,14 @@ func (k Keeper) CheckAndLiquidateUnhealthyPosition(ctx sdk.Context, position *ty
 		return true, false, h, fmt.Errorf("position is healthy to close")
 	}
 
-	repayAmount, err := k.ForceCloseLong(ctx, *position, pool, position.LeveragedLpAmount, true)
+	// callers log and continue on failure, so a close that fails half way must leave nothing behind
+	cacheCtx, write := ctx.CacheContext()
+	repayAmount, err := k.ForceCloseLong(cacheCtx, *position, pool, position.LeveragedLpAmount, true)
 	if err != nil {
 		ctx.Logger().Debug(errorsmod.Wrap(err, "error executing liquidation").Error())
 		return isHealthy, true, h, err
 	}
+	write()
 	ctx.EventManager().EmitEvent(sdk.NewEvent(types.EventCloseUnhealthyPosition,
 		sdk.NewAttribute("id", strconv.FormatInt(int64(position.Id), 10)),
 		sdk.NewAttribute("address", position.Address),
@@ -128,11 +131,14 @@ func (k Keeper) CheckAndCloseAtStopLoss(ctx sdk.Context, position *types.Positio
 		return underStopLossPrice, false, fmt.Errorf("position stop loss price is not <= lp token price")
 	}
 
-	repayAmount, err := k.ForceCloseLong(ctx, *position, pool, position.LeveragedLpAmount, false)
+	// callers log and continue on failure, so a close that fails half way must leave nothing behind
+	cacheCtx, write := ctx.CacheContext()
+	repayAmount, err := k.ForceCloseLong(cacheCtx, *position, pool, position.LeveragedLpAmount, false)
 	if err != nil {
 		ctx.Logger().Error(errorsmod.Wrap(err, "error executing close for stopLossPrice").Error())
 		return underStopLossPrice, true, err
 	}
+	write()
 	ctx.EventManager().EmitEvent(sdk.NewEvent(types.EventClosePositionStopLoss,
 		sdk.NewAttribute("id", strconv.FormatInt(int64(position.Id), 10)),
 		sdk.NewAttribute("address", position.Address),
